@@ -36,6 +36,8 @@ let run () =
     pl "known_tolerant" known_tolerant;
     pl "known_silent" known_silent;
     pl "file_ops" c12_file_ops;
+    Printf.printf "l unclaimed %s\n" (String.concat " " (List.concat_map (fun (n, ps) -> List.map (fun p -> Printf.sprintf "%s:%d" (str n) (int_of_pos p)) ps) (unclaimed_all tb)));
+    Printf.printf "l known_unvalidated %s\n" (String.concat " " (List.map (fun (n, p) -> Printf.sprintf "%s:%d" (str n) (int_of_pos p)) known_unvalidated));
     Printf.printf "l getters_ok %b\n" (getters_ok_b alloc_pairs getters);
     Printf.printf "l addr_macro_ok %b\n" (addr_macro_ok addr_macro);
     Printf.printf "l addr_rows %d\n" (List.length addr_rows)
